@@ -27,8 +27,13 @@ pub fn check(c: &Case) -> Outcome {
         return Outcome::Skip("outside C02's quantifier (first-fit, built-in splitters)");
     }
     let t = c.text.as_str();
-    if !scan::is_clean(t) {
-        return Outcome::Skip("text has a malformed escape");
+    if !scan::strictly_clean(t) {
+        // the quantifier: every ESC begins a well-formed sequence. (An ESC
+        // hidden inside another sequence's parameter bytes makes the
+        // per-word measure smaller than the display width of the joined
+        // line; with properly started sequences it can only be larger, which
+        // never makes a line too wide.)
+        return Outcome::Skip("text has an ESC that does not begin a well-formed sequence");
     }
     let e = spec.ending();
     let lines = textwrap::wrap(t, spec.options());
@@ -191,4 +196,14 @@ impl Property for P {
     fn min_nontrivial_share() -> f64 {
         0.15
     }
+}
+
+pub fn decode(data: &[u8]) -> Case {
+    let mut r = crate::fuzzdec::Reader::new(data);
+    let mode = r.u8();
+    let mut spec = crate::fuzzdec::optspec(&mut r, false, true);
+    spec.algo = Algo::FirstFit;
+    // keep ESC only in the well-formed tokens: drop lone ESC bytes in raw mode
+    let text = crate::fuzzdec::text(mode, r.rest());
+    Case { text, spec }
 }
